@@ -2805,6 +2805,11 @@ fn is_filename_included(xs: &State, filename: &Xstr) -> bool {
 }
 
 fn include_source(xs: &mut State, filename: Xstr) -> Xresult {
+    // a file that (directly or not) includes itself would otherwise nest without end
+    const MAX_INCLUDE_DEPTH: usize = 64;
+    if xs.input.len() >= MAX_INCLUDE_DEPTH {
+        return Err(Xerr::ErrorMsg(xeh_xstr!("include nesting too deep")));
+    }
     let src = crate::file::fs_overlay::read_source_file(&filename)?;
     xs.intern_source(src.into(), Some(filename))
 }
